@@ -83,6 +83,15 @@ Theorem submit_only_if_threshold :
 Proof. exact Proofs.C13.submit_only_if_threshold. Qed.
 Print Assumptions submit_only_if_threshold.
 
+(* ... and exactly then (as far as the gate is concerned): the submitter goes on to the chain iff
+   the set has at least threshold entries and the later checks of the submitter (nobody submitted
+   yet, chain state, context alive: [env_ok]) pass *)
+Theorem submit_iff_threshold :
+  forall (p : proto) (pa : params) (sigs : list (N * N)) (env_ok : bool),
+    submits p pa sigs env_ok = true <-> ((threshold p pa <= count sigs)%Z /\ env_ok = true).
+Proof. exact Proofs.C13.submit_iff_threshold. Qed.
+Print Assumptions submit_iff_threshold.
+
 Theorem beacon_threshold_value :
   forall pa, (0 <= p_honest pa <= p_gsize pa)%Z ->
     threshold Beacon pa = (p_honest pa + (p_gsize pa - p_honest pa) / 2)%Z /\
